@@ -12,19 +12,21 @@ EXTENDS FPValues, Json, Params
 
 Funcs == ndJsonDeserialize(FuncFile)        \* [name, min, max, exp]
 
+(* (%nonascii has 8 characters in 15 bytes, %euro 1 character in 3 bytes: the positions 9, 12 and 2 lie between the   *)
+(* character count and the byte count)                                                                              *)
 (* boundary pool: source fragments usable as receivers and arguments.  %nonascii, %multi, %cx, %node are environment *)
 (* variables the harness binds to a non-ASCII string, a two-item collection, a complex element and a resource.       *)
 Pool == <<"0", "1", "(-1)", "2", "2147483647", "(-2147483647 - 1)", "46341", "309", "2001", "0.0", "1.5", "(-0.5)", "(-10.0)", "(-1.5)", "0.5",
           "1000000000000000000000000000000.0", "0.000000000000000000000000000001", "12345678901234567890.123456789",
           "9999999999999999999999999999999999999999999999999999999999999999999999999999999999999999999999999999999999999999999999999999999999999999999999999999999999999999999999999999999999999999999999999999999999999999999999999999999999999999999999999999999999999999999999999999999999999999999999999999999999999999999999999999999999999999999999999999999999999999999999999999999999999999999999999999999999999999.0", "0.0000000000000000000000000000000000000000000000000000000000000000000000000000000000000000000000000000000000000000000000000000000000000000000000000000000000000000000000000000000000000000000000000000000000000000000000000000000000000000000000000000000000000000000000000000000000000000000000000000000000000000000000000000000000000000000000000000000000000000000000000000000000000000000000000000000000000001",         \* beyond float64 in both directions (400 digits)
-          "true", "false", "''", "'abc'", "%nonascii", "'1'", "'2020-01-01'", "'1 mg'",
+          "true", "false", "''", "'abc'", "%nonascii", "%euro", "'1'", "'2020-01-01'", "'1 mg'",
           "@2020", "@2020-02", "@2020-02-29", "@9999-12-31", "@0001-01-01", "@2020T", "@2020-02-29T23:59:59.999+14:00",
           "@2020-02-29T00:00:00-12:00", "@2020-02-29T10", "@T00", "@T23:59:59.999", "@T12:30",
           "1 'mg'", "1 year", "(-5 days)", "0 'mg'", "1000000 years", "(5 '')", "(-5 ' ')", "(-1.5 'a b')",
           "{}", "%multi", "%cx", "%node", "Patient.name", "Patient.birthDate", "Patient.active", "Patient.telecom.rank", "Patient.photo">>
 (* '(' and '[a-' are not regular expressions *)
-ArgsA == <<"0", "1", "(-1)", "309", "2001", "2147483647", "(-2147483647 - 1)", "1.5", "0.0", "true", "''", "'abc'", "%nonascii", "@2020", "@T12:30", "1 'mg'", "{}", "%multi", "%cx", "'('", "'[a-'">>
-ArgsB == <<"0", "1", "2", "(-1)", "2147483647", "(-2147483647 - 1)", "''", "'abc'", "{}", "%multi", "1.5", "'('">>
+ArgsA == <<"0", "1", "(-1)", "9", "12", "%euro", "309", "2001", "2147483647", "(-2147483647 - 1)", "1.5", "0.0", "true", "''", "'abc'", "%nonascii", "@2020", "@T12:30", "1 'mg'", "{}", "%multi", "%cx", "'('", "'[a-'">>
+ArgsB == <<"0", "1", "2", "(-1)", "12", "2147483647", "(-2147483647 - 1)", "''", "'abc'", "{}", "%multi", "1.5", "'('">>
 ArgsC == <<"true", "{}", "1", "%multi">>
 
 BinOps == <<"+", "-", "*", "/", "div", "mod", "&", "=", "!=", "<", "<=", ">", ">=", "and", "or", "xor", "implies", "~", "!~", "|", "in", "contains">>
